@@ -94,6 +94,51 @@ CLAIMED = {
         text="Compare / IsDeepFork / CompareWithDensity / Preferred written from the property and the consensus design; TLC checks the order laws over all pairs and triples of a small tip universe and emits them; the driver replays every pair in small, top-of-uint64 and mainnet-like worlds and calls Preferred in all candidate orders.",
         note="homogeneous tip sets (all windowed or all simple); small universe in TLC.",
         design_ref="§5 C41", engine="consensus"),
+    "C08": dict(
+        technique="TLA+ decision structure of output-quantity admissibility (OutputValue.tla) incl. the PairForge scenario, TLC enumeration of quantity class x CBOR integer form x era x output form; replay through the era decoders and rule lists",
+        text="Admissible(class) and the PairForge scenario (+q and -q of an unminted token) are TLA+ definitions; TLC proves Accepted => Admissible on the model (and refutes NoForge for the design without a range check) and emits every combination; the driver hand-encodes the outputs, decodes with the era decoder and runs the era's rules with a mock ledger state.",
+        note="quantity classes at the signed/unsigned/bignum boundaries; in-range tag-2 bignums are property-silent.",
+        design_ref="§5 C08", engine="ledger-decision"),
+    "C18": dict(
+        technique="TLA+ model of the handshake (Handshake.tla): TLC checks agreement on max common version / refusal / query over all pairs of version subsets, magics and flags; every row replayed on real handshake client+server over real muxers and on whole Connections",
+        text="Outcomes Accept(v)/Refuse(VersionMismatch, sorted)/Refuse(Refused)/QueryReply are specified; TLC enumerates every pair of subsets of a version window with 2 magics, flags and query mode; the driver runs each row with handshake.New client and server (custom version maps slid over the NtN, NtC, DMQ tables) and ouroboros.NewConnection pairs, comparing both sides' results.",
+        note="4-version window in quick, 5 in thorough.",
+        design_ref="§5 C18", engine="handshake"),
+    "C19": dict(
+        technique="TLA+ model of the handshake client against an adversarial responder (Handshake.tla, ClientSafe), TLC enumeration of every acceptance message; replayed by a raw scripted responder on handshake.Client and NewConnection",
+        text="ClientDoneOk => v proposed, data well-formed for v, magic equal; TLC enumerates known/unknown, proposed/unproposed versions x data shapes x magics; a raw segment-level responder sends each acceptance to the real client.",
+        note="HandshakeAdvLegacy.cfg keeps the pre-fix design and must fail ClientSafe.",
+        design_ref="§5 C19", engine="handshake"),
+    "C26": dict(
+        technique="TLA+ decision function of the validity interval per era (Validity.tla), TLC full grid, replay under order-isomorphic time maps through VerifyTransaction and rule by rule",
+        text="Accept = (start absent or s >= start) and (end absent or s < end) from Allegra on, s <= ttl in Shelley; TLC emits the full grid era x start x end x slot; each case is replayed under 6 monotone maps onto concrete slots (including 0, 2^63, 2^64-1) in 7 eras on the whole rule list.",
+        note="known finding F-C26z (a present bound of 0 is indistinguishable from absent in the Transaction interface).",
+        design_ref="§5 C26", engine="ledger-decision"),
+    "C28": dict(
+        technique="TLA+ model of witness requirements with symbolic signatures (Witness.tla), TLC enumeration of lock kinds x witnesses x validity; replay with real ed25519 keys and Byron roots through each era's signature / required-signer / collateral-witness rules",
+        text="Accept <=> all supplied signatures valid and owners(inputs + collateral) and required signers witnessed; TLC checks 8 meta-invariants and emits ~29k cases; the driver builds signed transactions (corruption = flipped bit / other key / other message) in 7 eras.",
+        note="symbolic crypto in the model; over-rejections (Byron-locked collateral with bootstrap witness) are observations.",
+        design_ref="§5 C28", engine="ledger-decision"),
+    "C29": dict(
+        technique="TLA+ recursive evaluator of native scripts (NativeScript.tla), TLC enumeration of scripts x contexts with monotonicity invariants; replay on decoded scripts (several encodings) through NativeScript.Evaluate and the era rules, hashes checked",
+        text="Eval(script, ctx) with the ledger semantics (absent start fails invalid-before, absent end fails invalid-hereafter) over trees of depth <= 3; TLC emits 81k (script, context) pairs; replayed under 5 time maps and 3-4 encodings, and at rule level on signed transactions.",
+        note="known findings F-C29-* (0 / MaxUint64 stand for absent bounds in the API).",
+        design_ref="§5 C29", engine="ledger-decision"),
+    "C31": dict(
+        technique="TLA+ token-level model of the language-views encoding and the script-data-hash decision table (LangViews.tla); TLC enumeration; independent byte writer compared with EncodeLangViews, rule rows executed on real Alonzo..Dijkstra transactions",
+        text="Language views as abstract CBOR token sequences (length-then-lex key order, V1 double-wrapped indefinite list) for every subset of Plutus versions, and (redeemers?, datums?, declared hash kind) -> accept/reject; hashes computed with Blake2b-256 in the driver over non-canonical original bytes.",
+        note="languages used = Plutus scripts in the witness set (reference scripts not exercised).",
+        design_ref="§5 C31", engine="ledger-decision"),
+    "C34": dict(
+        technique="TLA+ commitment structure per era with a symbolic hash (BodyHash.tla); TLC era x mutated component x validation flag; replay: byte/structural mutations of real blocks that still decode without validation must fail with validation on",
+        text="DecodeOk <=> every component's commitment = H(component) for Shelley-Mary (3 segments), Alonzo-Conway (4), Dijkstra (body hash), Byron main (tx count, merkle root, witness, delegation, update) and EBB; the driver mutates inside each component's byte range on 17 real blocks and also recomputes all commitments independently with Blake2b.",
+        note="Byron ssc payload excluded as the property states.",
+        design_ref="§5 C34", engine="ledger-decision"),
+    "C40": dict(
+        technique="TLA+ model of header validation with symbolic crypto (HeaderValidation.tla): field x mutation x KES period offset; replay on BlockBuilder.BuildHeader / ValidateHeader / VerifyBlock for Praos and TPraos layouts",
+        text="Valid(build(ctx)) and each single-field mutation falsifies exactly the checks covering the field; TLC enumerates tamper and insider mutations and period offsets {-1, 0, max-1, max}; the driver builds real headers with real VRF/KES/op-cert keys and applies the mutations.",
+        note="symbolic crypto in the model; VerifyBlock is not given maxKESEvolutions (documented).",
+        design_ref="§5 C40", engine="consensus"),
     "C42": dict(
         technique="TLA+ spec of the pipeline goroutines (Pipeline.tla), TLC safety+liveness, TLC-simulated schedules forced on the real pipeline through blocking gates",
         text="Pipeline.tla models Submit, stage workers, the apply runner, Stop and WaitForDrain at the grain of the verif gates; "
